@@ -15,17 +15,20 @@ import (
 func TestVerif_C01_Router(t *testing.T) {
 	r := kit.Start(t, "C01")
 	defer r.Finish()
-	r.Rule("seeded rule sets (1-4 rules x 1-4 paths over small alphabets: host/hostRegexp, exact/prefix/regexp paths, method lists, header matchers carrying values, a regexp or both on the same key, with and without matchAllHeader, rewrite targets incl. $n groups, shadowing duplicates, unknown backends) x 40 requests each (host with/without port, absent headers, unlisted methods); every request is served by the real mux.ServeHTTP and by an independent reference router; a run must contain requests whose value satisfies exactly one of the two conditions of a values+regexp matcher in a way that decides the entry, under matchAllHeader and without; distinct = (status, decision reason, winning rule/path index, host matcher kind, rewrite mode, deciding values+regexp matcher)")
-	r.Assume("a header matcher that carries both values and a regexp holds under matchAllHeader iff every configured condition holds (value listed AND regexp matches) and without matchAllHeader iff any does (the reading of \"all\"/\"any\" over the configured conditions, which is also what spec.go/mux.go document and do); request headers are single-valued; an entry may carry several path matchers; its rewritten path is judged when exactly one of them matches the request (when several match, the governing one is left open); no IPv6 literal hosts; no /.well-known/acme-challenge/ paths")
+	r.Rule("seeded rule sets (1-4 rules x 1-4 paths over small alphabets: host/hostRegexp, exact/prefix/regexp paths, method lists, header matchers carrying values, a regexp or both on the same key, with and without matchAllHeader, rewrite targets incl. $n groups, shadowing duplicates, unknown backends) x 40 requests each (host with/without port, absent headers, unlisted methods); plus 25% further rule sets of the same kind that have IP literals in their host vocabulary: about half of their rules carry an exact host and/or a hostRegexp written for literals (bracketed and bare IPv6, IPv4, regexps accepting either form / one form / a whole family) and three fifths of their requests address the server by literal (IPv4 or bracketed IPv6, half of them with a port); every request is served by the real mux.ServeHTTP and by an independent reference router; a run must contain requests whose value satisfies exactly one of the two conditions of a values+regexp matcher in a way that decides the entry, under matchAllHeader and without, and requests of every host form (name+port, v4, v4+port, bracketed v6, bracketed v6+port) dispatched through an exact/regexp host condition that had to accept them, and literals turned away by one; distinct = (status, decision reason, winning rule/path index, host matcher kind, rewrite mode, deciding values+regexp matcher, request host form)")
+	r.Assume("a header matcher that carries both values and a regexp holds under matchAllHeader iff every configured condition holds (value listed AND regexp matches) and without matchAllHeader iff any does (the reading of \"all\"/\"any\" over the configured conditions, which is also what spec.go/mux.go document and do); request headers are single-valued; an entry may carry several path matchers; its rewritten path is judged when exactly one of them matches the request (when several match, the governing one is left open); no /.well-known/acme-challenge/ paths")
+	r.Assume("the host with the port ignored: name:port -> name and v4:port -> v4; a bracketed IPv6 literal WITHOUT a port has no port to ignore and is taken as sent, brackets included (\"[2001:db8::1]\" is matched by host \"[2001:db8::1]\" and by regexps over that text); for a bracketed literal WITH a port the reference follows net.SplitHostPort (\"[2001:db8::1]:8080\" -> \"2001:db8::1\", brackets go with the port), but since the sentence does not say whether the brackets belong to the host, such a request is judged only when reading the host as \"[2001:db8::1]\" yields the same status, backend and rewritten path (otherwise it is served, counted and not compared); unbracketed IPv6 text is not a legal Host and is not generated")
 	nSets := r.N(400, 20000)
 	const reqPerSet = 40
 	missing := map[string]bool{"gone": true}
-	for i := 0; i < nSets; i++ {
+	// further rule sets that have IP literals in their host vocabulary
+	nLit := r.N(100, 5000)
+	for i := 0; i < nSets+nLit; i++ {
 		if !r.Mine(i) {
 			continue
 		}
 		rng := r.CaseRand(i)
-		spec := genSpec(rng, genOpts{headers: true, maxRules: 4, maxPaths: 4})
+		spec := genSpec(rng, genOpts{headers: true, maxRules: 4, maxPaths: 4, ipHosts: i >= nSets})
 		r.Case(i, spec)
 		mapper := &recMapper{missing: missing}
 		m, err := buildMux(spec, mapper)
@@ -45,7 +48,40 @@ func TestVerif_C01_Router(t *testing.T) {
 			}
 			called := mapper.Calls() - before
 			r.Eval(1)
-			r.Cover(fmt.Sprintf("%d/%s/r%d.p%d/%s/%s/both=%s", want.Out.Status, want.Why, want.Rule, want.PathIdx, want.HostKind, want.Rewrite, want.HdrBoth))
+			hc := reqHostClass(q.Host)
+			if alt, ok := refBracketReading(q.Host); ok {
+				// "[v6]:port": the reference reads the host as the bare address (brackets
+				// dropped with the port); if reading it as the bracketed literal routes the
+				// request differently, the property does not decide and the request is not judged
+				q2 := q
+				q2.Host = alt
+				w2 := refRoute(spec, &q2, missing)
+				if w2.Out.Status != want.Out.Status || w2.Out.Backend != want.Out.Backend || w2.Rewrite != want.Rewrite || w2.Out.Path != want.Out.Path {
+					r.Count("reqhost_v6+port_not_judged_bracket_reading_routes_differently", 1)
+					r.Cover("open/reqhost=" + hc + "/bracket-reading-differs")
+					continue
+				}
+			}
+			r.Cover(fmt.Sprintf("%d/%s/r%d.p%d/%s/%s/both=%s/reqhost=%s", want.Out.Status, want.Why, want.Rule, want.PathIdx, want.HostKind, want.Rewrite, want.HdrBoth, hc))
+			r.Count("reqhost_"+hc, 1)
+			if want.Rule >= 0 && (want.HostKind == "exact" || want.HostKind == "regexp") {
+				// dispatched through a rule whose host condition had to accept this host
+				r.Count("reqhost_"+hc+"_accepted_by_host_"+want.HostKind, 1)
+			}
+			if hc != "name" && hc != "name+port" && want.Rule != 0 {
+				for ri := range spec.Rules {
+					if want.Rule >= 0 && ri >= want.Rule {
+						break
+					}
+					if ru := &spec.Rules[ri]; ru.Host != "" || ru.HostRegexp != "" {
+						if ok, _ := refHostMatch(ru, q.Host); !ok {
+							// a host condition in front of the deciding rule had to reject the literal
+							r.Count("reqhost_literal_rejected_by_an_earlier_host_condition", 1)
+							break
+						}
+					}
+				}
+			}
 			if want.HdrBoth != "" {
 				// "all", "any" or "all+any": a values+regexp matcher of which the request satisfies
 				// exactly one condition decided an entry consulted for this request
@@ -80,6 +116,10 @@ func TestVerif_C01_Router(t *testing.T) {
 					bad += ":values+regexp-header-matcher-half-satisfied-read-the-other-way:matchAllHeader=" + map[string]string{"all": "true", "any": "false", "all+any": "both-kinds"}[want.HdrBoth]
 				}
 			}
+			if bad != "" && hc != "name" && hc != "name+port" {
+				// the Host is an IP literal: say which kind (names keep the plain signature)
+				bad += ":reqhost=" + hc
+			}
 			if bad != "" {
 				r.Violation("router-vs-reference:"+bad+":"+want.Why, map[string]interface{}{
 					"spec": spec, "yaml": spec.YAML("verif"), "request": q, "real": got, "reference": want,
@@ -93,7 +133,15 @@ func TestVerif_C01_Router(t *testing.T) {
 	}
 	for _, k := range []string{"status_200", "status_400", "status_404", "status_405", "status_503", "rewrite_exact", "rewrite_prefix", "rewrite_regexp", "rewrite_ambiguous",
 		"hdr_values_and_regexp_split_decides_matchall_true", "hdr_values_and_regexp_split_decides_matchall_false",
-		"hdr_values_and_regexp_split_decides_matchall_true_status_200", "hdr_values_and_regexp_split_decides_matchall_true_status_400"} {
+		"hdr_values_and_regexp_split_decides_matchall_true_status_200", "hdr_values_and_regexp_split_decides_matchall_true_status_400",
+		// IP-literal hosts: each form must have been dispatched through a host condition that
+		// had to accept it ("[v6]:port" is judged through regexps accepting both readings; an
+		// exact host for it is always open), and must have been turned away by one
+		"reqhost_v6_accepted_by_host_exact", "reqhost_v6_accepted_by_host_regexp", "reqhost_v6+port_accepted_by_host_regexp",
+		"reqhost_v4_accepted_by_host_exact", "reqhost_v4_accepted_by_host_regexp",
+		"reqhost_v4+port_accepted_by_host_exact", "reqhost_v4+port_accepted_by_host_regexp",
+		"reqhost_name+port_accepted_by_host_exact", "reqhost_name+port_accepted_by_host_regexp",
+		"reqhost_literal_rejected_by_an_earlier_host_condition"} {
 		r.Require(k, 1)
 	}
 }
